@@ -95,6 +95,76 @@ def narrowing_rule(ck, funcs, report):
 
 
 
+def sentinel_rule(ck, funcs, report):
+    """clause: 'nothing found' is told apart from every real answer.  A loop-carried value P that starts at v0 and, inside the loop, takes
+    the current value of a cursor C that *also* starts at v0 (through phis/selects only: `last = p`, `last = i`) holds v0 both when
+    nothing was recorded and when the first element was: a comparison of P with v0 cannot decide 'found' -- reported (the position-0 answer
+    is lost or invented).  A cursor is a header phi stepping by a constant.  Flags, NULL-initialised trackers and counters (P+1) do not match."""
+    trackers = 0
+    for fn in funcs:
+        for h, L in fn.loops.items():
+            inside = L["_set"]
+            phis = [i for i in fn.blocks[h]["insts"] if i["op"] == "phi"]
+
+            def init(p):
+                outs = [x["v"] for x in p["incoming"] if x["bb"] not in inside]
+                return outs[0] if len(outs) == 1 else None
+
+            def strip(o):
+                while o.get("k") == "v" and fn.defs.get(o["id"], {}).get("op") in ("bitcast",):
+                    o = fn.defs[o["id"]]["ops"][0]
+                return o
+
+            def same(a, b):
+                a, b = strip(a), strip(b)
+                if a.get("k") != b.get("k"):
+                    return False
+                return a.get("id") == b.get("id") if a.get("k") == "v" else (a.get("v") == b.get("v") if a.get("k") == "c" else a.get("k") == "null")
+
+            def advances(c):
+                for x in c["incoming"]:
+                    if x["bb"] in inside and x["v"].get("k") == "v":
+                        d = fn.defs.get(x["v"]["id"])
+                        if d is not None and ((d["op"] == "getelementptr" and d["base"].get("id") == c["id"] and not d.get("terms") and d.get("coff")) or
+                                              (d["op"] in ("add", "sub") and d["ops"][0].get("id") == c["id"] and d["ops"][1].get("k") == "c")):
+                            return True
+                return False
+            for P in phis:
+                v0 = init(P)
+                if v0 is None or v0.get("k") == "null":
+                    continue
+                cursors = {C["id"] for C in phis if C is not P and init(C) is not None and same(init(C), v0) and advances(C)}
+                if not cursors:
+                    continue
+
+                def reaches(o, seen):
+                    o = strip(o)
+                    if o.get("k") != "v" or o["id"] in seen:
+                        return False
+                    if o["id"] in cursors:
+                        return True
+                    seen.add(o["id"])
+                    d = fn.defs.get(o["id"])
+                    if d is None or d.get("_bb") not in inside or d is P:
+                        return False
+                    if d["op"] == "phi":
+                        return any(reaches(x["v"], seen) for x in d["incoming"])
+                    if d["op"] == "select":
+                        return reaches(d["ops"][1], seen) or reaches(d["ops"][2], seen)
+                    return False
+                if not any(reaches(x["v"], set()) for x in P["incoming"] if x["bb"] in inside):
+                    continue
+                trackers += 1
+                for i in fn.insts():
+                    if i["op"] == "icmp" and i["pred"] in ("eq", "ne"):
+                        a, b = strip(i["ops"][0]), strip(i["ops"][1])
+                        if (a.get("id") == P["id"] and same(b, v0)) or (b.get("id") == P["id"] and same(a, v0)):
+                            report("C10:sentinel-collides-with-answer:%s:%s" % (api.base_name(fn.name), P["id"].lstrip("%")), "R-not-found-distinct-from-answers", fn.loc(i),
+                                   "%s decides by comparing %s with its initial value, but the loop records the cursor in it and the cursor starts at that same value: a match at the first position looks like no match"
+                                   % (api.base_name(fn.name), P["id"]))
+    return trackers
+
+
 def scan_rule(ck, funcs, report):
     """clause: a budgeted scan gives up for lack of budget only after it has examined all `budget` elements (sa/scan.py)"""
     rows, covered, exits, skipped = {}, 0, 0, {}
@@ -130,8 +200,9 @@ def run(ck):
     nres = narrowing_rule(ck, funcs, ck.report)
     if nres < 10:
         ck.fail_broken("narrowing rule: only %d stores of a variable value through result parameters found (< 10)" % nres)
+    ntrk = sentinel_rule(ck, funcs, ck.report)
     fx = selftest(ck)
-    cov = dict(scan_completeness=sc, result_stores_checked_for_narrowing=nres, explanation="For each of the %d exported query functions anchored by the property, every operand parameter (%d pointers named dest/src/str/key/base) "
+    cov = dict(position_trackers_checked_for_sentinel_collision=ntrk, scan_completeness=sc, result_stores_checked_for_narrowing=nres, explanation="For each of the %d exported query functions anchored by the property, every operand parameter (%d pointers named dest/src/str/key/base) "
                "is followed through getelementptr/casts/phi/select/integer round trips and through every library callee (inter-procedural write summaries, fixpoint over "
                "the call graph); a store or a writing effect on a derived pointer is a violation. Passing the pointer to the registered constraint handler or to the caller's "
                "comparator, and storing an interior pointer into an out-parameter, are not writes. Scan completeness: in %d budgeted scan loops (a counter from a length argument decreasing by a constant, a cursor advancing by a constant) every exit "
@@ -165,4 +236,9 @@ def selftest(ck):
     out["narrowing"] = dict(fired=got3, stores=nn)
     if got3 != ["C10:difference-narrowed:cmp16_narrowed"]:
         ck.fail_broken("fixture c10.c: narrowing rule got %s" % got3)
+    got4 = []
+    nt = sentinel_rule(B(), [prog.funcs[n] for n in ("last_flag_good", "last_ptr_sentinel", "last_idx_sentinel", "last_null_good")], lambda key, *a: got4.append(key))
+    out["sentinel"] = dict(fired=sorted(got4), trackers=nt)
+    if sorted(got4) != ["C10:sentinel-collides-with-answer:last_idx_sentinel:last.0", "C10:sentinel-collides-with-answer:last_ptr_sentinel:lastp.0"]:
+        ck.fail_broken("fixture c10.c: sentinel rule got %s (%d trackers)" % (sorted(got4), nt))
     return out
